@@ -164,8 +164,9 @@ class Plan:
 
     def _add(self, kind: str, node: str, fam: str, scope: Optional[str], steps: List[Tuple[str, Any]], seen: Optional[set]):
         inst = self.vocab["nodes"][node]
-        if seen is not None:     # quick tier: one representative per (types, node kind, targets, scope, which targets exist already)
-            key = (tuple(steps), inst["kind"], scope, tuple(t in inst.get("applications", []) for _, t in steps) if fam == "application" else ())
+        if seen is not None:     # one representative per (types, node kind, targets, scope, which targets exist already); for applications
+            # the node kind is left out (the installed / absent pattern decides; family "every" visits every node kind)
+            key = (tuple(steps), inst["kind"] if fam != "application" else "", scope, tuple(t in inst.get("applications", []) for _, t in steps) if fam == "application" else ())
             if key in seen:
                 self.stats["deduplicated:same pair on another node of the same kind"] = self.stats.get("deduplicated:same pair on another node of the same kind", 0) + 1
                 return
